@@ -204,3 +204,61 @@ def gen_cases(op, rng, tier):
         ext = rng.choice([0, 8, 0, 8, 0x7f, 0x77])
         out.append('%s %02x %s %s' % (op, ext, R.hx(m), R.hx(rng.choice(HELOS))))
     return out
+
+
+# ------------------------------------------------------------------ shared evidence helpers
+RULE = ('cases = (extension mask, message bytes, HELO name) for the sequence need_recode(); send_data() of qremote.c; messages from eight '
+        'streams: tiny words over {CR, LF, ".", blank, tab, "=", "a", 0x80}; 7-bit text with mixed CR/LF/CRLF ends and sizes around the '
+        '1200/1205/1269/1280-octet staging buffers; single lines of 996..1002 octets with/without dot and line end; header+body that needs '
+        'quoted-printable with lines around the 72..76 soft-break columns and every last byte in {blank, tab, CR, LF, ".", "=", 0x80, NUL}; '
+        'long header lines (fold points 50/800/970, with and without blanks); multipart with present / missing / duplicated / terminal '
+        'boundaries and nested parts; raw random bytes. non-trivial = the C completed the transfer and the message contains a bare CR or LF, '
+        'a leading dot, an 8-bit octet or a line above 72 octets; distinct by case text')
+TRUSTED_BASE = [
+    'Coq 8.16.1 kernel (coqc; coqchk in thorough); vm_compute in the non-vacuity examples only; no native_compute',
+    'axioms: none (Print Assumptions: Closed under the global context)',
+    'translator tools/translators/qrdata.py: regexes over qremote/qrdata.c, qremote/mime.c, include/qremote/qrdata.h, greeting.h produce coq/Gen/GenQrdata.v (buffer sizes, thresholds, flag values, literal texts)',
+    'hand-written literal models coq/Model/QrData.v, coq/Model/Mime.v tied to the C by the correspondence run (differential testing incl. the boundaries of the individual netnwrite calls; bounded by the generator)',
+    'extraction with ExtrOcamlBasic only (no Extract Constant); ocaml/glue.ml + ocaml/qrdata_driver.ml hex parsing/printing',
+    'C harness harness/qrdata_h.c: #include of qremote/qrdata.c and qremote/mime.c; netnwrite/netget/checkreply/net_conn_shutdown/write_status replaced by recorders; message placed in front of a PROT_NONE page; gcc 12 -O1 ASan+UBSan vs. production build',
+]
+ASSUMPTIONS = [
+    'the server answers DATA with 354 and the terminator with 250; netnwrite() transmits what it is given (TLS/socket layer outside the model)',
+    'the queue file is mapped read-only at msgdata with exactly msgsize readable octets; plain char is signed (as on the build host)',
+    'the model is of the C with fixes/C06-*.diff and fixes/C07-*.diff applied (the unfixed code over-reads, hangs and doubles dots: see reports/C06.md, reports/C07.md)',
+]
+
+
+def nontrivial(case, c_out):
+    if not c_out.endswith(' END'):
+        return False
+    f = case.split()
+    m = R.unhx(f[2])
+    if b'\r' in m.replace(b'\r\n', b'') or b'\n' in m.replace(b'\r\n', b''):
+        return True
+    if m.startswith(b'.') or b'\n.' in m or b'\r.' in m:
+        return True
+    if any(c > 127 for c in m):
+        return True
+    import re
+    return any(len(l) > 72 for l in re.split(b'\r\n|\r|\n', m))
+
+
+def distribution(results):
+    d = {'plain_end': 0, 'qp_end': 0, 'die_8bithdr': 0, 'die_ctsyntax': 0, 'die_boundary': 0, 'crash': 0, 'timeout': 0,
+         'multipart': 0, 'size_le_100': 0, 'size_le_1300': 0, 'size_gt_1300': 0}
+    for r in results:
+        c = r['c']
+        f = r['case'].split()
+        n = 0 if f[2] == '-' else len(f[2]) // 2
+        d['size_le_100' if n <= 100 else 'size_le_1300' if n <= 1300 else 'size_gt_1300'] += 1
+        if b'multipart/' in R.unhx(f[2]).lower():
+            d['multipart'] += 1
+        if c == 'CRASH': d['crash'] += 1
+        elif c == 'TIMEOUT': d['timeout'] += 1
+        elif c.endswith('P END'): d['plain_end'] += 1
+        elif c.endswith('Q END'): d['qp_end'] += 1
+        elif c.endswith('DIE_8bithdr'): d['die_8bithdr'] += 1
+        elif c.endswith('DIE_ctsyntax'): d['die_ctsyntax'] += 1
+        else: d['die_boundary'] += 1
+    return d
